@@ -1,1 +1,133 @@
-/- C18: property theorems go here (only property theorems, non-vacuity examples, #print axioms). -/
+import StorageModel.C18.MvccProofs
+import StorageModel.C18.Store
+import StorageModel.C18.Globals
+import StorageModel.Generated.Globals
+/-
+  C18 — Concurrent use: snapshot-isolated reads and no data races.
+
+  "Read transactions may run queries and lookups concurrently with each other and with a writer:
+  every read transaction observes the database exactly as of one committed state (all of a
+  transaction's effects on entities, indexes and links, or none of them), and its query results
+  equal what a serial execution on that state returns. Parsing, store symbol resolution and the
+  error-classification helpers can be called from many goroutines without data races."
+  — for all interleavings of N reader goroutines with a writer committing multi-operation
+  transactions, and all concurrent uses of the package-level helpers.
+
+  PARTIAL.  Proved here: the MVCC model (StorageModel/C18/Mvcc.lean), for ALL interleavings, and
+  an obligation decided over the regenerated table of package-level variables.  NOT provable
+  here, and not claimed: that bbolt implements the MVCC model (it is assumed; the correspondence
+  harness compares every reader log of the real code with the model on the tagged version), and
+  absence of data races in the Go code — that is a property of the Go memory model and the
+  scheduler.  The table obligation and the race-detector runs bound it, they do not settle it; the
+  table is exactly as good as /verif/extract/globals.go (writes through an alias created
+  elsewhere, or inside library types, are not seen).
+-/
+namespace StorageModel.Properties.C18
+open StorageModel.C18
+
+section
+variable {V Op Q A : Type} (apply : V → Op → V) (eval : Q → V → A)
+
+/-- **Every observation equals the serial result on the pinned version** — for every interleaving
+    (any list of writer / reader events, any number of readers): an observation tagged `k` is the
+    answer `eval q` gives on the state produced by executing, serially, the first `k` committed
+    write transactions. -/
+theorem read_sees_one_version (v0 : V) (evs : List (Ev Op Q)) :
+    let s := run apply eval (St.init v0 : St V Op Q A) evs
+    ∀ o ∈ s.log, o.tag ≤ s.txs.length ∧ o.a = eval o.q (versionAt apply v0 s.txs o.tag) := by
+  intro s o ho
+  have hinv := Inv_run apply eval _ evs (Inv_init apply eval v0)
+  have hv0 : s.v0 = v0 := by simp only [s]; rw [run_v0]; rfl
+  obtain ⟨h1, h2, _⟩ := hinv.log o ho
+  exact ⟨h1, by rw [← hv0]; exact h2⟩
+
+/-- … and all observations of one read transaction carry the same tag, i.e. come from ONE version. -/
+theorem one_version_per_read_tx (v0 : V) (evs : List (Ev Op Q)) :
+    let s := run apply eval (St.init v0 : St V Op Q A) evs
+    ∀ o ∈ s.log, ∀ o' ∈ s.log, o.rtx = o'.rtx → o.tag = o'.tag := by
+  intro s o ho o' ho' he
+  exact (Inv_run apply eval _ evs (Inv_init apply eval v0)).logLog o ho o' ho' he
+
+/-- **All or nothing.**  What a reader sees is always the result of a whole number of committed
+    transactions: never a prefix of a transaction's operations, never an open or aborted one. -/
+theorem all_or_nothing_visibility (v0 : V) (evs : List (Ev Op Q)) :
+    let s := run apply eval (St.init v0 : St V Op Q A) evs
+    ∀ o ∈ s.log, ∃ k, k ≤ s.txs.length ∧ o.a = eval o.q ((s.txs.take k).foldl (applyTx apply) v0) := by
+  intro s o ho
+  obtain ⟨h1, h2⟩ := read_sees_one_version apply eval v0 evs o ho
+  exact ⟨o.tag, h1, h2⟩
+
+/-- an aborted write transaction leaves the committed state and the list of committed
+    transactions untouched, whatever it did -/
+theorem abort_invisible (s : St V Op Q A) (ops : List Op) (hw : s.wcopy = none) :
+    let s' := run apply eval s ([.wbegin] ++ ops.map .wop ++ [.wabort])
+    s'.cur = s.cur ∧ s'.txs = s.txs ∧ s'.log = s.log ∧ s'.wcopy = none := by
+  have key : ∀ (ops : List Op) (t : St V Op Q A) (w : V) (done : List Op), t.wcopy = some (w, done) →
+      (run apply eval t (ops.map .wop ++ [.wabort])).cur = t.cur ∧
+      (run apply eval t (ops.map .wop ++ [.wabort])).txs = t.txs ∧
+      (run apply eval t (ops.map .wop ++ [.wabort])).log = t.log ∧
+      (run apply eval t (ops.map .wop ++ [.wabort])).wcopy = none := by
+    intro ops
+    induction ops with
+    | nil => intro t w done h; simp [run, step]
+    | cons o os ih =>
+      intro t w done h
+      simp only [List.map_cons, List.cons_append, run, step, h]
+      exact ih _ (apply w o) (done ++ [o]) rfl
+  simp only [List.cons_append, List.nil_append, run, step, hw]
+  exact key ops _ s.cur [] rfl
+
+end
+
+/-- the check the driver applies to the implementation's reader logs accepts every log the MVCC
+    model can produce over the harness' universe (store model C18/Store.lean) -/
+theorem model_logs_pass_check (evs : List (Ev WOp Qry)) :
+    let s := run applyOp evalQ (St.init [] : St Ver WOp Qry (List Nat)) evs
+    ∀ o ∈ s.log, o.tag ≤ s.txs.length ∧ (evalQ o.q (versionAt applyOp [] s.txs o.tag) == o.a) = true := by
+  intro s o ho
+  obtain ⟨h1, h2⟩ := read_sees_one_version applyOp evalQ [] evs o ho
+  refine ⟨h1, ?_⟩
+  show (evalQ o.q (versionAt applyOp [] (run applyOp evalQ (St.init []) evs).txs o.tag) == o.a) = true
+  rw [h2]; simp
+
+/-! ## Obligation on the regenerated table of package-level variables -/
+
+/-- **No unsynchronised global writes** (a proof about the table, as good as the extractor): every
+    package-level variable of zitiql / ast / boltz / objectz is a sync.Pool, an atomic, a mutex, a
+    struct guarded by its own sync.Once, or is never assigned / element-written / address-taken
+    outside `init()` except under a mutex. -/
+theorem no_unsynchronised_global_writes : noUnsyncWrites Generated.globals = true := by decide
+
+/-- the table is not empty by accident: the anchors named in the property are in it, with the
+    expected classification -/
+theorem global_table_anchors :
+    (hasVar Generated.globals "zitiql" "lexerPool" .syncPool && hasVar Generated.globals "zitiql" "parserPool" .syncPool &&
+     hasVar Generated.globals "ast" "EnableQueryDebug" .atomic) = true := by decide
+
+/-! ## Non-vacuity -/
+
+/-- an interleaving in which a reader that began before a commit keeps answering from the old
+    version while a later reader sees the new one, and an aborted transaction is seen by nobody -/
+example :
+    let evs : List (Ev WOp Qry) :=
+      [.wbegin, .wop (.put 1 10 3 [0]), .wcommit,
+       .rbegin 0, .rread 0 (.qRankGe 0),
+       .wbegin, .wop (.put 2 20 5 [1]), .wop (.del 1), .rread 0 (.load 1), .wcommit,
+       .rbegin 1, .rread 1 (.qRankGe 0), .rread 0 (.qRankGe 0),
+       .wbegin, .wop (.put 3 30 1 []), .wabort, .rbegin 2, .rread 2 (.qRankGe 0)]
+    ((run applyOp evalQ (St.init [] : St Ver WOp Qry (List Nat)) evs).log.map fun o => (o.reader, o.tag, o.a)) =
+      [(2, 2, [2]), (0, 1, [1]), (1, 2, [2]), (0, 1, [1, 10, 3, 0]), (0, 1, [1])] := by decide
+
+/-- the obligation is not vacuous: the table shape that `errors.As(err, &pkgVar)` produces is rejected -/
+def tableWithErrorsAsTarget : List GlobalVar :=
+  [{ pkg := "boltz", name := "testErrorReferenceExists", kind := VarKind.plain,
+     writes := [{ func := "IsReferenceExistsError", how := WriteHow.addr, inInit := false, underLock := false }] }]
+example : noUnsyncWrites tableWithErrorsAsTarget = false := by decide
+
+/-- … and so is a package-level cache map written in GetSymbol without a lock -/
+def tableWithUnlockedCache : List GlobalVar :=
+  [{ pkg := "boltz", name := "symbolCache", kind := VarKind.plain,
+     writes := [{ func := "BaseStore.GetSymbol", how := WriteHow.elem, inInit := false, underLock := false }] }]
+example : noUnsyncWrites tableWithUnlockedCache = false := by decide
+
+end StorageModel.Properties.C18
